@@ -213,6 +213,39 @@ fn count_writes(pairs: &Pairs, set: bool) -> u64 {
     drive(s, pairs, set).map(|w| w.inner.writes).unwrap_or(0)
 }
 
+/// bytes_written() against the sink after every call, with a sink that accepts a few bytes per
+/// call and fails at write index i, for every i.
+fn check_faulted(pairs: &Pairs, set: &bool, rec: &mut Rec) -> CheckResult {
+    use crate::sinks::{FaultKind, FaultSink};
+    for cap in [1usize, 2, 3, 5] {
+    let w = count_writes_capped(pairs, *set, cap);
+    for i in 0..w {
+        for kind in [FaultKind::Other, FaultKind::OkZero] {
+            rec.eval();
+            let (sink, st) = FaultSink::new(Some(i), false, kind, cap);
+            let mut b = match fst::raw::Builder::new(sink) {
+                Ok(b) => b,
+                Err(_) => continue, // fault inside new(): no builder to inspect
+            };
+            for (k, v) in pairs {
+                let r = if *set { b.add(k) } else { b.insert(k, *v) };
+                let accepted = st.borrow().data.len() as u64;
+                vensure!(b.bytes_written() == accepted, "bytes-written-after-fault", "bytes_written()={} but the sink has accepted {} bytes after insert returned {} (sink accepts a few bytes per call and fails at write #{}); keys {}", b.bytes_written(), accepted, if r.is_ok() { "Ok" } else { "Err" }, i, crate::oracle::keys_show(pairs));
+                if r.is_err() {
+                    rec.class("bytes_written_checked_after_failed_insert");
+                    if accepted > st.borrow().data.len() as u64 - 0 && b.bytes_written() > 0 {
+                        rec.class("failed_insert_after_partial_acceptance");
+                    }
+                    break;
+                }
+            }
+        }
+    }
+    }
+    rec.nontrivial(H::new().pairs(pairs).u(0xfa).get());
+    Ok(())
+}
+
 pub fn run(e: &Engine) {
     crate::crcref::self_test();
     e.set_rule("cases are (key sequence, sink behaviour): scripted sinks following a script of Accept(n>=1) / all-but-one / Interrupted actions then a fixed cap, BufWriter (capacity 1, 7, 8192) over such sinks, pre-filled Vec, Cursor positioned mid-buffer, &mut Vec; exhaustively for small FSTs every fixed cap 1..16, every write-call position of a single one-byte-short write and of a single Interrupted; oracle = byte equality with the in-memory build, bytes_written == sink count after every call, open + verify + query suite; non-trivial = a short write or Interrupted at a data offset >= 16 (node or footer emission) with >= 2 keys; distinct by (pairs, sink spec)");
@@ -259,45 +292,17 @@ pub fn run(e: &Engine) {
     // interior nodes with 6- and 8-byte outputs are written *during* later inserts, in several chunks
     fault_cases.push((vec![(b"aa".to_vec(), 1 << 40), (b"ab".to_vec(), 3), (b"b".to_vec(), 0), (b"ca".to_vec(), u64::MAX), (b"cb".to_vec(), 1), (b"d".to_vec(), 5)], false));
     fault_cases.push(((0u16..60).map(|b| (vec![b'w', (b % 3) as u8 + b'a', b as u8], crate::engine::mix(b as u64, 0xfa7))).collect::<std::collections::BTreeMap<_, _>>().into_iter().collect(), false));
-    e.run_list("bytes-written-after-a-failed-call", &fault_cases, |c| json!({"pairs": pairs_json(&c.0), "set": c.1, "faulted": true}), |(pairs, set), rec| {
-        use crate::sinks::{FaultKind, FaultSink};
-        for cap in [1usize, 2, 3, 5] {
-        let w = count_writes_capped(pairs, *set, cap);
-        for i in 0..w {
-            for kind in [FaultKind::Other, FaultKind::OkZero] {
-                rec.eval();
-                let (sink, st) = FaultSink::new(Some(i), false, kind, cap);
-                let mut b = match fst::raw::Builder::new(sink) {
-                    Ok(b) => b,
-                    Err(_) => continue, // fault inside new(): no builder to inspect
-                };
-                for (k, v) in pairs {
-                    let r = if *set { b.add(k) } else { b.insert(k, *v) };
-                    let accepted = st.borrow().data.len() as u64;
-                    vensure!(b.bytes_written() == accepted, "bytes-written-after-fault", "bytes_written()={} but the sink has accepted {} bytes after insert returned {} (sink accepts a few bytes per call and fails at write #{}); keys {}", b.bytes_written(), accepted, if r.is_ok() { "Ok" } else { "Err" }, i, crate::oracle::keys_show(pairs));
-                    if r.is_err() {
-                        rec.class("bytes_written_checked_after_failed_insert");
-                        if accepted > st.borrow().data.len() as u64 - 0 && b.bytes_written() > 0 {
-                            rec.class("failed_insert_after_partial_acceptance");
-                        }
-                        break;
-                    }
-                }
-            }
-        }
-        }
-        rec.nontrivial(H::new().pairs(pairs).u(0xfa).get());
-        Ok(())
-    });
+    e.run_list("bytes-written-after-a-failed-call", &fault_cases, |c| json!({"pairs": pairs_json(&c.0), "set": c.1, "faulted": true}), |(pairs, set), rec| check_faulted(pairs, set, rec));
     // files beyond 64 KiB through short-writing sinks (byte counter / address arithmetic far from the start)
-    let mediums: Vec<Case> = (0..e.tier.pick(12u64, 40)).map(|i| {
+    let mediums: Vec<(gen::Recipe, Case)> = (0..e.tier.pick(12u64, 40)).map(|i| {
         let r = gen::Recipe { kind: 1, n: 12_000 + 1_700 * i, seed: crate::engine::mix(e.seed, 700 + i), fanout: 5, keylen: 12, values: (i % 3) as u8 };
         let script: Vec<Act> = (0..400).map(|j| match crate::engine::mix(e.seed ^ i, j) % 5 { 0 => Act::Interrupted, 1 => Act::AllButOne, 2 => Act::Accept(1), _ => Act::Accept(usize::MAX) }).collect();
         // mostly unbuffered sinks with a small fixed cap for the whole file: every multi-byte write is short
         let cap = [1usize, 2, 3, 5, 7, 2, 3, 1, 4, 6, 2, 3][(i % 12) as usize];
-        Case { pairs: r.pairs(), set: r.values == 0, sink: if i % 6 != 5 { SinkSpec::Script { script, then_cap: cap } } else { SinkSpec::Buffered { capacity: 7, script, then_cap: cap } } }
+        let c = Case { pairs: r.pairs(), set: r.values == 0, sink: if i % 6 != 5 { SinkSpec::Script { script, then_cap: cap } } else { SinkSpec::Buffered { capacity: 7, script, then_cap: cap } } };
+        (r, c)
     }).collect();
-    e.run_list("files-over-64KiB-through-short-writing-sinks", &mediums, |c| json!({"n_keys": c.pairs.len(), "sink": c.to_json()["sink"]}), |c, rec| {
+    e.run_list("files-over-64KiB-through-short-writing-sinks", &mediums, |(r, c)| json!({"recipe": r.to_json(), "set": c.set, "sink": c.to_json()["sink"]}), |(_, c), rec| {
         rec.class("file_over_64KiB_through_scripted_sink");
         check(c, rec)
     });
@@ -310,8 +315,23 @@ pub fn run(e: &Engine) {
 
 pub fn replay(_sub: &str, case: &Value) -> Option<CheckResult> {
     let mut rec = Rec::new(0);
-    if case.get("faulted").is_some() || case.get("n_keys").is_some() {
-        return None;
+    if case.get("faulted").is_some() {
+        return Some(crate::engine::guarded(|| {
+            let pairs = crate::engine::pairs_from_json(case.get("pairs").ok_or_else(bad)?).ok_or_else(bad)?;
+            let set = case.get("set").and_then(|x| x.as_bool()).ok_or_else(bad)?;
+            check_faulted(&pairs, &set, &mut rec)
+        }));
+    }
+    if let Some(r) = case.get("recipe") {
+        return Some(crate::engine::guarded(|| {
+            // the keys are regenerated from the recipe; set flag and sink are stored
+            let r = gen::Recipe::from_json(r).ok_or_else(bad)?;
+            let mut v = json!({"pairs": pairs_json(&r.pairs()), "set": case.get("set").cloned().unwrap_or(json!(false)), "sink": case.get("sink").cloned().unwrap_or(Value::Null)});
+            let c = Case::from_json(&v).ok_or_else(bad)?;
+            v = Value::Null;
+            let _ = v;
+            check(&c, &mut rec)
+        }));
     }
     Some(crate::engine::guarded(|| check(&Case::from_json(case).ok_or_else(bad)?, &mut rec)))
 }
